@@ -1008,9 +1008,10 @@ func digitLoopRule(p *core.Program, r *core.Result, decode *ssa.Function) {
 		for _, ex := range l.Exits {
 			b := ex[1]
 			ret, ok := b.Instrs[len(b.Instrs)-1].(*ssa.Return)
-			if !ok || len(ret.Results) != 2 || len(b.Preds) != 1 {
+			if !ok || len(ret.Results) != 2 {
 				continue
 			}
+			// (a return block with several predecessors — `a || b` exits — is judged on the facts common to all of them)
 			plusOne := false
 			if bo, ok := ret.Results[1].(*ssa.BinOp); ok && bo.Op == token.ADD && bo.X == ssa.Value(ctr) {
 				if k, ok := ssax.ConstInt(bo.Y); ok && k == 1 {
